@@ -143,11 +143,20 @@ M("c13.ecc.cascade.narrow", "C13", "lib/Crypto/PublicKey/ECC.py",
   "    try:\n        return _import_subjectPublicKeyInfo(encoded, passphrase)\n    except UnsupportedEccFeature as err:\n        raise err\n    except (ValueError, TypeError, IndexError):",
   "    try:\n        return _import_subjectPublicKeyInfo(encoded, passphrase)\n    except UnsupportedEccFeature as err:\n        raise err\n    except (ValueError, TypeError):", "X|ECC.import_key|IndexError")
 M("c13.pkcs8.raise.keyerror", "C13", "lib/Crypto/IO/PKCS8.py", 'raise ValueError("Not a valid PrivateKeyInfo SEQUENCE")\n    elif pk_info[0] == 1:', 'raise KeyError("Not a valid PrivateKeyInfo SEQUENCE")\n    elif pk_info[0] == 1:', "X|PKCS8.unwrap|KeyError")
+M("c13.kdfgate.openssh.revert", "C13", "lib/Crypto/PublicKey/_openssh.py",
+  '        if password is None:\n            raise ValueError("OpenSSH private key is encrypted, but no passphrase available")\n\n', "", "G|kdf-gate|_openssh")
+M("c13.kdfgate.pem", "C13", "lib/Crypto/IO/PEM.py",
+  '        if not passphrase:\n            raise ValueError("PEM is encrypted, but no passphrase available")\n', "", "G|kdf-gate|PEM.decode")
+M("c13.kdfgate.pkcs8", "C13", "lib/Crypto/IO/PKCS8.py", "    if passphrase is not None:\n        passphrase = tobytes(passphrase)\n",
+  "    if True:\n        passphrase = tobytes(passphrase or b'')\n", "G|kdf-gate|PKCS8.unwrap")
 M("c13.twin.asn1.guard", "C13", ASN1, "                    if len(encoded_length) == 0:\n", "                    if not encoded_length:\n", twin=True)
 
 # ---------------------------------------------------------------- C17 (hand-written successors of obsolete seeds)
 M("c17.ecws.p384.ntables", "C17", "src/ec_ws.c",
   "    if (bw.nr_windows > p384_n_tables)\n", "    if (bw.nr_windows > p521_n_tables)\n", "M|c|ec_ws.generator_tables")
+# successor of seed C05-2 (compare only part of the two sides of the curve equation) on the repaired code
+M("c05.ed25519.partial.compare", "C05", "src/ed25519.c",
+  "    if (0 != memcmp(bin1, bin2, sizeof bin1)) {\n", "    if (0 != memcmp(bin1, bin2, 24)) {\n", "")
 M("c17.point.set.lifetime", "C17", "lib/Crypto/PublicKey/_point.py",
   """        self._point = VoidPointer()
         result = clone(self._point.address_of(),
